@@ -214,6 +214,10 @@ class SubtomogramLoader(LoaderBase):
         scale = self.scale
         if isinstance(image, np.ndarray):
             image = da.from_array(image, asarray=xp.asarray)
+        if image.dtype.kind == "f" and image.dtype.itemsize not in (4, 8):
+            # float16 (MRC mode 12) or extended precision. Convert before padding: the mean
+            # of float16 values close to the top of the range overflows.
+            image = image.astype(np.float32)
 
         if self.corner_safe:
             _prep = _utils.prepare_affine_cornersafe
